@@ -172,7 +172,7 @@ def w_response(ctx, rng, i):
     which = "lpf" if i % 2 == 0 else "bpf"
     frac = float(rng.uniform(0.01, 0.45)) if i % 5 else float([0.0101, 0.449, 0.25, 0.1][i // 5 % 4])
     cut = frac * fs
-    N = 8192
+    N = int([8192, 8191, 4097, 8192][i % 4])      # odd lengths: fftshift and ifftshift differ there
     imp = np.zeros(N)
     imp[N // 2] = 1.0
     ctx.describe(which=which, order=order, cut_over_fs=frac, fs=fs)
